@@ -138,6 +138,7 @@ class VirtualClock:
         max_rounds: int = 2,
         leap_at_call: Optional[int] = None,
         slice_script: Optional[Sequence[int]] = None,
+        leap_big: bool = False,
     ) -> None:
         self.now = 1000.0
         self.dec = dec
@@ -149,6 +150,7 @@ class VirtualClock:
         self.calls = 0
         self.rounds_granted = 0
         self.leap_at_call = leap_at_call
+        self.leap_big = leap_big  # the leap at call `leap_at_call` also exceeds max_expansion_time
         self.slice_script = list(slice_script) if slice_script is not None else None
         self.horizon_hit = False
         self.sites: Dict[str, int] = {}
@@ -165,7 +167,7 @@ class VirtualClock:
         if self.leap_at_call is not None and self.calls == self.leap_at_call:
             # unreduced mode for the reduction-conformance run: time passes before this very
             # call; the site bookkeeping below (packet count, horizon) still takes place
-            self.now += self.SLICE_LEAP
+            self.now += self.BIG if self.leap_big else self.SLICE_LEAP
         if name == "_expand_classes_for":
             if "expansion_start" in frame.f_locals:
                 self.packets += 1
